@@ -8,7 +8,7 @@
    (over-long plaintext) — so "enc = Ok c -> dec c = Ok p" is the round trip. *)
 From Coq Require Import List NArith Bool Lia ZifyN ZifyNat.
 From Tink Require Import Bytes AeadFrame AeadFrameProofs Ctr CtrProofs EtM EtMProofs
-  Polyval GcmSiv GcmSivProofs Cmac Xaes XaesProofs Envelope EnvelopeProofs.
+  Polyval PolyvalProofs PolyvalBytesProofs GcmSiv GcmSivProofs Cmac Xaes XaesProofs Envelope EnvelopeProofs.
 Import ListNotations.
 Open Scope N_scope.
 
@@ -177,6 +177,42 @@ Proof.
   rewrite (siv_raw_enc_ok aes HA) by assumption. reflexivity.
 Qed.
 Print Assumptions C01_aesgcmsiv_wire_format.
+
+(* ------------------------------------------------------------------------- *)
+(* POLYVAL (internal/aead/polyval.go = aead/subtle/polyval.go): the hand-written
+   integer kernels mul32 ("multiplication with holes": four masked copies, uint64
+   products, no carries between base-16 digits because at most 8 partial products
+   meet), mul64 and polyvalDot (Karatsuba, then the folded reduction by
+   x^128+x^127+x^126+x^121+1) compute, for EVERY pair of 128-bit field elements,
+   dot(a, b) = a * b * x^-128 of RFC 8452 section 3 (carry-less product and
+   bit-serial reduction on N).  Proof: GF(2)-bilinearity of the kernels (the no-carry
+   argument, for all inputs) and of the specification, plus agreement on the
+   128 x 128 monomial pairs (evaluated by the VM).                             *)
+Theorem C01_polyvalDot_is_rfc8452_dot :
+  forall a b : bytes, wfb a -> wfb b -> length a = 16%nat -> length b = 16%nat ->
+    block_of_fe (polyvalDot (fe_of_block a) (fe_of_block b)) = le_bytes 16 (dot_spec (le_val a) (le_val b)).
+Proof. exact polyvalDot_blocks. Qed.
+Print Assumptions C01_polyvalDot_is_rfc8452_dot.
+
+(* ... hence POLYVAL as coded (NewPolyval(key); Update(piece) for each piece; Finish()) is
+   POLYVAL(H, X_1..X_s) of RFC 8452 over the zero-padded 16-byte blocks of the pieces,
+   for every 16-byte key and all byte strings — in particular the AES-GCM-SIV tag input
+   POLYVAL(authKey, pad(ad) || pad(pt) || le64(8|ad|) || le64(8|pt|)) *)
+Theorem C01_polyval_is_rfc8452_polyval :
+  forall key pieces, wfb key -> length key = 16%nat -> Forall wfb pieces ->
+    polyval_impl key pieces = polyval_spec key (flat_map blocks_of pieces).
+Proof. exact polyval_impl_is_spec. Qed.
+Print Assumptions C01_polyval_is_rfc8452_polyval.
+
+(* the specification side is anchored: x^-128 really is the inverse of x^128, and the
+   RFC 8452 Appendix A example evaluates to the published value *)
+Example C01_polyval_spec_anchors :
+  gf_mul xinv128 (pmod_fuel 128 (2 ^ 128)) = 1 /\
+  polyval_spec [37;98;147;71;88;146;66;118;29;49;248;38;186;75;117;123]
+    [[79;79;149;102;140;131;223;182;64;23;98;187;45;1;162;98];
+     [209;162;77;221;39;33;208;6;187;228;95;32;211;201;243;98]]
+  = [247;163;180;123;132;97;25;250;229;183;134;108;245;229;183;126].
+Proof. split; vm_compute; reflexivity. Qed.
 
 (* ------------------------------------------------------------------------- *)
 (* XAES-256-GCM (aead/xaesgcm): per-message key = CMAC(00 01 58 00 || salt || 0..) ||
